@@ -278,23 +278,43 @@ theorem to_set_eq {α} (eq : α → α → Bool) (lag : Bool) (raw : List (Notif
     (toSetO eq).out lag raw = atEnd (ending raw) [.next ((elems raw).foldl (setAdd eq) []), .completed] :=
   toSetO_out eq lag raw
 
-/-- **unhashable elements, the code as it is** (`toSetHO`: `s.add` is the `on_next` handler itself): an unhashable element
-raises `TypeError` into the emitter, is skipped, and the subscriber finally gets the set of the *hashable* elements —
-where the reference `set(xs)` raises.  Same for an unhashable key in `to_dict` (`m[key] = element` is outside the `try`s). -/
-theorem to_set_unhashable {α} (h : α → Bool) (eq : α → α → Bool) (lag : Bool) (raw : List (Notif α)) :
-    (toSetHO h eq).out lag raw = atEnd (ending raw) [.next (((elems raw).filter h).foldl (setAdd eq) []), .completed]
-    ∧ (∀ s x, h x = false → (toSetHO h eq).handle s (.next x) = ⟨s, [], some "TypeError"⟩)
-    ∧ (∀ {κ ν} (hk : κ → Bool) (eqk : κ → κ → Bool) (key : α → Except Err κ) (elem : α → Except Err ν) s x k v,
-        key x = .ok k → elem x = .ok v → hk k = false →
-        (toDictHO hk eqk key elem).handle s (.next x) = ⟨s, [], some "TypeError"⟩) := by
-  refine ⟨?_, ?_, ?_⟩
-  · rw [toSetHO_out, to_set_eq, elems_filter_keep, ending_filter_keep]
-  · intro s x hx; simp [Op.handle, toSetHO, hx]
-  · intro κ ν hk eqk key elem s x k v h1 h2 h3; simp [Op.handle, toDictHO, h1, h2, h3]
+/-- **to_set with unhashable elements (as repaired)** = `set(xs)`, which raises `TypeError` at the first unhashable element:
+the error is delivered as `on_error` at that element; on hashable input it is `to_set_eq`. -/
+theorem to_set_hashing_eq {α} (h : α → Bool) (eq : α → α → Bool) (lag : Bool) (raw : List (Notif α)) :
+    (toSetHO h eq).out lag raw = foldRef ((elems raw).foldlM (setStepH h eq) []) id (ending raw)
+    ∧ ((∀ x ∈ elems raw, h x = true) → (toSetHO h eq).out lag raw = (toSetO eq).out lag raw)
+    ∧ (∀ pre x post, elems raw = pre ++ x :: post → (∀ y ∈ pre, h y = true) → h x = false →
+        (toSetHO h eq).out lag raw = [.error "TypeError"]) := by
+  refine ⟨toSetHO_out h eq lag raw, ?_, ?_⟩
+  · intro hh; rw [toSetHO_out, setStepH_hashable h eq _ _ hh, to_set_eq]; rfl
+  · intro pre x post he hpre hx
+    rw [toSetHO_out, he, setStepH_unhashable h eq pre x post [] hpre hx]; rfl
+
+/-- **to_dict with unhashable keys (as repaired)** = the dict comprehension, raising `TypeError` at the first unhashable key
+(after both mappers ran for that element) -/
+theorem to_dict_hashing_eq {α κ ν} (h : κ → Bool) (eq : κ → κ → Bool) (key : α → Except Err κ) (elem : α → Except Err ν) (lag : Bool)
+    (raw : List (Notif α)) :
+    (toDictHO h eq key elem).out lag raw = foldRef ((elems raw).foldlM (dictStepH h eq key elem) []) id (ending raw) :=
+  toDictHO_out h eq key elem lag raw
 
 example : (toSetHO (fun (x : List Nat) => x.length < 2) (· == ·)).out false [.next [1], .next [2, 3], .next [4], .completed]
-    = [.next [[1], [4]], .completed] := by decide
-example : (toSetHO (fun (x : List Nat) => x.length < 2) (· == ·)).escapes false [.next [1], .next [2, 3], .next [4], .completed]
+    = [.error "TypeError"] := by decide
+
+/-- **AsIs witness (before `fixes/C06_toset_todict_unhashable.patch`)**: `s.add` was the handler itself / `m[key] = element`
+sat outside the `try`s: an unhashable element raised `TypeError` into the emitter, was skipped, and the subscriber finally got
+the set of the *hashable* elements — where the reference `set(xs)` raises. -/
+theorem to_set_unhashable_asis {α} (h : α → Bool) (eq : α → α → Bool) (lag : Bool) (raw : List (Notif α)) :
+    (toSetAsIsO h eq).out lag raw = atEnd (ending raw) [.next (((elems raw).filter h).foldl (setAdd eq) []), .completed]
+    ∧ (∀ s x, h x = false → (toSetAsIsO h eq).handle s (.next x) = ⟨s, [], some "TypeError"⟩)
+    ∧ (∀ {κ ν} (hk : κ → Bool) (eqk : κ → κ → Bool) (key : α → Except Err κ) (elem : α → Except Err ν) s x k v,
+        key x = .ok k → elem x = .ok v → hk k = false →
+        (toDictAsIsO hk eqk key elem).handle s (.next x) = ⟨s, [], some "TypeError"⟩) := by
+  refine ⟨?_, ?_, ?_⟩
+  · rw [toSetAsIsO_out, to_set_eq, elems_filter_keep, ending_filter_keep]
+  · intro s x hx; simp [Op.handle, toSetAsIsO, hx]
+  · intro κ ν hk eqk key elem s x k v h1 h2 h3; simp [Op.handle, toDictAsIsO, h1, h2, h3]
+
+example : (toSetAsIsO (fun (x : List Nat) => x.length < 2) (· == ·)).escapes false [.next [1], .next [2, 3], .next [4], .completed]
     = ["TypeError"] := by decide
 
 /-- `{key(x): elem(x) for x in xs}` as the fold of `d[k] = v`; a mapper's exception at the element where it is raised -/
